@@ -117,6 +117,27 @@ def gen_elementwise_core(rng, n):
     return out
 
 
+def gen_reduce_core(rng, n):
+    """reductions over one or more bracketed axes of one tensor with nested flattened axes (no unit axes, numbers or repeats)"""
+    out = []
+    g = gencalls.G(rng)
+    while len(out) < n:
+        axes = g.pick_axes(rng.randint(1, 4), sizes=[2, 3, 4, 5], maxprod=2000)
+        if any(a.size == 1 for a in axes):
+            continue
+        gencalls.mark_some(rng, axes, 1, 2)
+        din = g.arrange(g.perm(axes), units=0.0, flat=0.4)
+        dout = g.arrange(g.perm([a for a in axes if not a.marked]), units=0.0, flat=0.4)
+        if any(isinstance(d, gencalls.Fl) and not d.leaves() for d in din + dout):
+            continue
+        op = rng.choice(["sum", "max", "min", "prod", "any", "all", "count_nonzero", "mean", "var", "std"])
+        arr = gencalls.int_data(rng, gencalls.shape_of(din), 0, 3)
+        c = gencalls.Call("reduce", op, [din], [dout], [arr.astype(bool) if op in ("any", "all") else (arr.astype(np.float64) if op in ("mean", "var", "std") else arr)])
+        c.describe(rng)
+        out.append(c)
+    return out
+
+
 def run_lowering(ctx):
     """tie of Model/Lower.v to the code: the graph einx builds must be accepted as equivalent to the model's term by the
     extracted, proved-sound checker of Model/Opt.v (normal forms coincide)"""
@@ -163,6 +184,28 @@ def run_lowering(ctx):
         else:
             ctx.tie_breaks.append({"correspondence": "Model/Lower.v: the graph einx built for this element-wise call is not equivalent to the model's term "
                                                      "(aligned inputs, broadcasting operation, reshape; verdict: in_scope, equivalent, wf_model, wf_graph, sizes)",
+                                   "call": c.record(), "verdict": r})
+        ctx.distinct.add("lower|" + c.desc)
+    # reductions: reshape to the leaves, the backend's reduction over the bracketed positions, rearrangement of the rest
+    rcases = gen_reduce_core(ctx.rng, 150 if ctx.tier == "quick" else 5000)
+    rcaps = common.pmap(_capture_graph, rcases)
+    lines, owners = [], []
+    stats.update({"reduce_calls": len(rcases), "reduce_graph_equals_model": 0})
+    for c, cap in zip(rcases, rcaps):
+        if cap[0] == "term":
+            names = gencalls.Names()
+            lines.append(sx(["lower_reduce", [irser.s_str(c.op), gencalls.w_dims(c.ins[0], names), gencalls.w_dims(c.outs[0], names), cap[1]]]))
+            owners.append(c)
+        elif cap[0] == "nograph" and cap[1] == 0:
+            stats["served_from_cache_no_trace"] = stats.get("served_from_cache_no_trace", 0) + 1
+        else:
+            ctx.tie_breaks.append({"correspondence": "lowering model vs traced graph: graph not captured as a term", "call": c.record(), "detail": str(cap[:2])})
+    for c, r in zip(owners, ctx.model.batch(lines)):
+        if isinstance(r, list) and r[0] == "lower" and r[1:5] == ["T", "T", "T", "T"]:
+            stats["reduce_graph_equals_model"] += 1
+        else:
+            ctx.tie_breaks.append({"correspondence": "Model/Lower.v: the graph einx built for this reduction is not equivalent to the model's term "
+                                                     "(reshape to leaves, reduction over the bracketed positions, rearrangement; verdict: in_scope, equivalent, wf_model, wf_graph, sizes)",
                                    "call": c.record(), "verdict": r})
         ctx.distinct.add("lower|" + c.desc)
     return stats
